@@ -28,6 +28,7 @@ def _(c):
               "and 0 <= (self._p2n - width - self._img_gx0) - self._img_gx0 <= 1", name="centred_x_rounded_down")
     c.ensures("self._img_gy0 >= 0 and self._img_gy0 + height <= self._p2n "
               "and 0 <= (self._p2n - height - self._img_gy0) - self._img_gy0 <= 1", name="centred_y_rounded_down")
+    c.init_fields(**TILING_FIELDS)
 
 
 @contract("toasty.study.StudyTiling.count_populated_positions")
@@ -66,3 +67,49 @@ def _(c):
         holds="item[3] <= px < item[3] + item[1] and item[4] <= py < item[4] + item[2]",
         unique=True, name="pixel_partition"))
     c.post(yields_count("self.count_populated_positions()", [0, 1], name="reported_count"))
+
+
+# a tiling exactly as StudyTiling.__init__ leaves it (receiver of compute_for_subimage)
+TOP = (INV + " and ispow2(self._p2n) and self._p2n >= 256 and self._p2n >= self._width and self._p2n >= self._height "
+       "and (self._p2n == 256 or 2 * self._width > self._p2n or 2 * self._height > self._p2n) "
+       "and self._img_gx0 == (self._p2n - self._width) // 2 and self._img_gy0 == (self._p2n - self._height) // 2")
+
+
+@contract("toasty.study.StudyTiling.compute_for_subimage")
+def _(c):
+    c.self_type("StudyTiling", **TILING_FIELDS)
+    c.args(subim_ix="int", subim_iy="int", subim_width="int", subim_height="int")
+    c.requires(TOP, name="receiver_is_top_level_tiling")
+    c.requires("subim_width >= 1 and subim_height >= 1", name="sizes_at_least_one")
+    c.raises("ValueError", when="subim_width > self._width or subim_height > self._height or subim_ix < 0 "
+             "or subim_ix + subim_width > self._width or subim_iy < 0 or subim_iy + subim_height > self._height")
+    c.returns("StudyTiling")
+    c.ensures("result._p2n == self._p2n and result._tile_size == self._tile_size "
+              "and result._tile_levels == self._tile_levels", name="shares_parent_geometry")
+    c.ensures("result._width == subim_width and result._height == subim_height", name="sub_size")
+    c.ensures("result._img_gx0 == self._img_gx0 + subim_ix and result._img_gy0 == self._img_gy0 + subim_iy",
+              name="sub_offset_in_global_pixels")
+    c.ensures(INV.replace("self.", "result."), name="class_invariant")
+
+
+@contract("toasty.study.StudyTiling.image_to_tile")
+def _(c):
+    c.self_type("StudyTiling", **TILING_FIELDS)
+    c.args(im_ix="int", im_iy="int")
+    c.requires(INV)
+    c.returns("tuple[int,int,int,int]")
+    c.ensures("256 * result[0] + result[2] == im_ix + self._img_gx0 and 0 <= result[2] < 256", name="x_slot")
+    c.ensures("256 * result[1] + result[3] == im_iy + self._img_gy0 and 0 <= result[3] < 256", name="y_slot")
+
+from pyvc.types import register_type, fresh_of_type as _fresh  # noqa: E402
+from pyvc.values import Inst as _Inst  # noqa: E402
+
+
+def _fresh_tiling(interp, name):
+    inst = _Inst("StudyTiling", module="toasty.study")
+    for f, t in TILING_FIELDS.items():
+        inst.fields[f] = _fresh(interp, t, "%s.%s" % (name, f))
+    return inst
+
+
+register_type("StudyTiling", _fresh_tiling)
